@@ -2020,10 +2020,10 @@ func (s *ScopedKeyManager) ImportPrivateKey(ns walletdb.ReadWriteBucket,
 
 	// Create a new managed address based on the imported address.
 	if !s.rootManager.WatchOnly() {
-		return s.toImportedPrivateManagedAddress(wif)
+		return s.toImportedPrivateManagedAddress(ns, wif)
 	}
 	pubKey := wif.PrivKey.PubKey()
-	return s.toImportedPublicManagedAddress(pubKey, wif.CompressPubKey)
+	return s.toImportedPublicManagedAddress(ns, pubKey, wif.CompressPubKey)
 }
 
 // ImportPublicKey imports a public key into the address manager.
@@ -2044,7 +2044,7 @@ func (s *ScopedKeyManager) ImportPublicKey(ns walletdb.ReadWriteBucket,
 		return nil, err
 	}
 
-	return s.toImportedPublicManagedAddress(pubKey, true)
+	return s.toImportedPublicManagedAddress(ns, pubKey, true)
 }
 
 // importPublicKey imports a public key into the address manager and updates the
@@ -2141,10 +2141,29 @@ func (s *ScopedKeyManager) importPublicKey(ns walletdb.ReadWriteBucket,
 	return nil
 }
 
+// cacheAddrOnCommit adds a newly imported address to the address cache after
+// the database transaction that stores it has been committed. Caching it
+// right away would make the manager believe in an address the database does
+// not have if the transaction is rolled back (a later import of the same key
+// or script would then fail as a duplicate until restart).
+//
+// This function MUST be called with the manager lock held for writes; the
+// lock is no longer held when the commit callback runs.
+func (s *ScopedKeyManager) cacheAddrOnCommit(ns walletdb.ReadWriteBucket,
+	key addrKey, addr ManagedAddress) {
+
+	ns.Tx().OnCommit(func() {
+		s.mtx.Lock()
+		defer s.mtx.Unlock()
+
+		s.addrs[key] = addr
+	})
+}
+
 // toImportedPrivateManagedAddress converts an imported private key to an
 // imported managed address.
 func (s *ScopedKeyManager) toImportedPrivateManagedAddress(
-	wif *btcutil.WIF) (*managedAddress, error) {
+	ns walletdb.ReadWriteBucket, wif *btcutil.WIF) (*managedAddress, error) {
 
 	// Create a new managed address based on the imported address.
 	//
@@ -2158,16 +2177,19 @@ func (s *ScopedKeyManager) toImportedPrivateManagedAddress(
 	}
 	managedAddr.imported = true
 
-	// Add the new managed address to the cache of recent addresses and
-	// return it.
-	s.addrs[addrKey(managedAddr.Address().ScriptAddress())] = managedAddr
+	// Add the new managed address to the cache of recent addresses once
+	// it is committed and return it.
+	s.cacheAddrOnCommit(
+		ns, addrKey(managedAddr.Address().ScriptAddress()), managedAddr,
+	)
 	return managedAddr, nil
 }
 
 // toPublicManagedAddress converts an imported public key to an imported managed
 // address.
 func (s *ScopedKeyManager) toImportedPublicManagedAddress(
-	pubKey *btcec.PublicKey, compressed bool) (*managedAddress, error) {
+	ns walletdb.ReadWriteBucket, pubKey *btcec.PublicKey,
+	compressed bool) (*managedAddress, error) {
 
 	// Create a new managed address based on the imported address.
 	//
@@ -2181,9 +2203,11 @@ func (s *ScopedKeyManager) toImportedPublicManagedAddress(
 	}
 	managedAddr.imported = true
 
-	// Add the new managed address to the cache of recent addresses and
-	// return it.
-	s.addrs[addrKey(managedAddr.Address().ScriptAddress())] = managedAddr
+	// Add the new managed address to the cache of recent addresses once
+	// it is committed and return it.
+	s.cacheAddrOnCommit(
+		ns, addrKey(managedAddr.Address().ScriptAddress()), managedAddr,
+	)
 	return managedAddr, nil
 }
 
@@ -2385,9 +2409,9 @@ func (s *ScopedKeyManager) importScriptAddress(ns walletdb.ReadWriteBucket,
 		cts.setClearTextScript(script)
 	}
 
-	// Add the new managed address to the cache of recent addresses and
-	// return it.
-	s.addrs[addrKey(scriptIdent)] = managedAddr
+	// Add the new managed address to the cache of recent addresses once
+	// it is committed and return it.
+	s.cacheAddrOnCommit(ns, addrKey(scriptIdent), managedAddr)
 
 	if updateStartBlock {
 		// Now that the database has been updated, update the start block in
